@@ -1066,6 +1066,7 @@ static int gen_builder_struct_field_assign(fb_output_t *out, fb_compound_type_t 
     int n, len;
     const char *s;
     int deprecated_index = 0;
+    int stmt = 0;
     const char *kind, *tprefix;
     fb_scoped_name_t snref;
 
@@ -1079,13 +1080,15 @@ static int gen_builder_struct_field_assign(fb_output_t *out, fb_compound_type_t 
         member = (fb_member_t *)sym;
         symbol_name(sym, &n, &s);
 
-        if (index > 0) {
-            if (index % 4 == 0) {
+        /* Deprecated fields have no argument: statements and arguments are counted separately. */
+        if (stmt > 0) {
+            if (stmt % 4 == 0) {
                 fprintf(out->fp, ";\n  ");
             } else {
                 fprintf(out->fp, "; ");
             }
         }
+        ++stmt;
         switch (member->type.type) {
         case vt_fixed_array_compound_type_ref:
             len = (int)member->type.len;
@@ -1094,7 +1097,6 @@ static int gen_builder_struct_field_assign(fb_output_t *out, fb_compound_type_t 
                 fprintf(out->fp, "__%sstruct_clear_field(p->__deprecated%i)",
                         nsc, deprecated_index);
                 ++deprecated_index;
-                ++index;
                 continue;
             }
             if (from_ptr) {
@@ -1113,7 +1115,6 @@ static int gen_builder_struct_field_assign(fb_output_t *out, fb_compound_type_t 
                     fprintf(out->fp, "__%sstruct_clear_field(p->__deprecated%i)",
                             nsc, deprecated_index);
                     deprecated_index++;
-                    index += get_total_struct_field_count(member->type.ct);
                     continue;
                 }
                 if (from_ptr) {
@@ -1131,7 +1132,6 @@ static int gen_builder_struct_field_assign(fb_output_t *out, fb_compound_type_t 
                 fprintf(out->fp, "__%sstruct_clear_field(p->__deprecated%i)",
                         nsc, deprecated_index);
                 ++deprecated_index;
-                ++index;
                 continue;
             }
             switch (member->size == 1 ? no_conversion : conversion) {
@@ -1170,7 +1170,6 @@ static int gen_builder_struct_field_assign(fb_output_t *out, fb_compound_type_t 
                 fprintf(out->fp, "__%sstruct_clear_field(p->__deprecated%i)",
                         nsc, deprecated_index);
                 ++deprecated_index;
-                ++index;
                 continue;
             }
             if (from_ptr) {
@@ -1188,7 +1187,6 @@ static int gen_builder_struct_field_assign(fb_output_t *out, fb_compound_type_t 
                 fprintf(out->fp, "__%sstruct_clear_field(p->__deprecated%i)",
                         nsc, deprecated_index);
                 ++deprecated_index;
-                ++index;
                 continue;
             }
             switch (member->size == 1 ? no_conversion : conversion) {
@@ -1225,7 +1223,8 @@ static int gen_builder_struct_field_assign(fb_output_t *out, fb_compound_type_t 
             continue;
         }
     }
-    if (arg_count > 0) {
+    (void)arg_count;
+    if (stmt > 0) {
         fprintf(out->fp, ";\n  ");
     }
     return index;
